@@ -542,3 +542,733 @@ Proof.
             objective Rops st + (gain Rops st c + rsuml (gains_along Rops (apply_split Rops st c) cs))).
     rewrite IH. unfold gain; rops. lra.
 Qed.
+
+(* ------------------------------------------------------------------ layer B: the model's [gain] in terms of cluster terms *)
+Lemma rsuml_perm l l' : Permutation l l' -> rsuml l = rsuml l'.
+Proof. induction 1; rewrite ?rsuml_cons in *; try lra; reflexivity. Qed.
+Lemma sig_perm_l kap a a' b : Permutation a a' -> sig kap a b = sig kap a' b.
+Proof. intros H. rewrite !sig_unfold. apply rsuml_perm. now apply Permutation_map. Qed.
+Lemma sig_perm_r kap a b b' : Permutation b b' -> sig kap a b = sig kap a b'.
+Proof.
+  intros H. rewrite !sig_unfold. apply rsuml_map_ext. intros i _. apply rsuml_perm. now apply Permutation_map.
+Qed.
+Lemma rterm_perm kap C C' : Permutation C C' -> rterm kap C = rterm kap C'.
+Proof.
+  intros H. destruct C as [|x C].
+  - apply Permutation_nil in H. now subst.
+  - destruct C' as [|y C']; [apply Permutation_sym, Permutation_nil in H; discriminate|].
+    rewrite !rterm_ne by discriminate.
+    rewrite (sig_perm_l kap _ _ _ H), (sig_perm_r kap _ _ _ H), (Permutation_length H). reflexivity.
+Qed.
+
+Lemma rsuml_map_minus {A} (f g : A -> R) l :
+  rsuml (map f l) - rsuml (map g l) = rsuml (map (fun x => f x - g x) l).
+Proof. induction l as [|x l IH]; simpl map; rewrite ?rsuml_nil, ?rsuml_cons; [lra | rewrite <- IH; lra]. Qed.
+
+Lemma filter_partition_perm {A} (p : A -> bool) l :
+  Permutation (filter p l ++ filter (fun x => negb (p x)) l) l.
+Proof.
+  induction l as [|x l IH]; simpl; [constructor|].
+  destruct (p x); simpl.
+  - now constructor.
+  - apply Permutation_sym, Permutation_cons_app, Permutation_sym, IH.
+Qed.
+
+Lemma set_nth_length {A} j (x : A) l : length (set_nth j x l) = length l.
+Proof. revert j; induction l as [|y l IH]; intros [|j]; simpl; auto. Qed.
+Lemma set_nth_nth {A} j (d : A) l : set_nth j (nth j l d) l = l.
+Proof. revert j; induction l as [|y l IH]; intros [|j]; simpl; auto. now rewrite IH. Qed.
+Lemma nth_set_nth {A} j (x d : A) l : (j < length l)%nat -> nth j (set_nth j x l) d = x.
+Proof. revert j; induction l as [|y l IH]; intros [|j] H; simpl in *; try lia; auto. apply IH. lia. Qed.
+
+(* members of cluster k' once leaf j has been emptied *)
+Definition others (cls : list nat) (lvs : list (list nat)) (j k' : nat) : list nat :=
+  members cls (set_nth j [] lvs) k'.
+
+Lemma members_set_perm : forall cls lvs j (L : list nat) k', (j < length lvs)%nat -> length cls = length lvs ->
+  Permutation (members cls (set_nth j L lvs) k') ((if (nth j cls 0 =? k')%nat then L else []) ++ others cls lvs j k').
+Proof.
+  unfold others. induction cls as [|c cs IH]; intros [|l ls] j L k' Hj Hlen; simpl in *; try lia.
+  destruct j as [|j]; simpl.
+  - destruct (c =? k')%nat; simpl; apply Permutation_refl.
+  - specialize (IH ls j L k' ltac:(lia) ltac:(lia)).
+    eapply Permutation_trans; [apply Permutation_app_head, IH|].
+    rewrite !app_assoc. apply Permutation_app_tail, Permutation_app_comm.
+Qed.
+
+Lemma members_setcl_empty : forall cls lvs j a k',
+  members (set_nth j a cls) (set_nth j [] lvs) k' = members cls (set_nth j [] lvs) k'.
+Proof.
+  induction cls as [|c cs IH]; intros [|l ls] [|j] a k'; simpl; auto.
+  - destruct (a =? k')%nat, (c =? k')%nat; reflexivity.
+  - now rewrite IH.
+Qed.
+
+Lemma members_app_single : forall cls lvs b (Rr : list nat) k', length cls = length lvs ->
+  members (cls ++ [b]) (lvs ++ [Rr]) k' = members cls lvs k' ++ (if (b =? k')%nat then Rr else []).
+Proof.
+  induction cls as [|c cs IH]; intros [|l ls] b Rr k' Hlen; simpl in *; try lia.
+  - now rewrite app_nil_r.
+  - rewrite IH by lia. now rewrite app_assoc.
+Qed.
+
+Lemma members_other_leaf : forall cls lvs j (X : list nat) k', nth j cls 0%nat <> k' -> (j < length cls)%nat ->
+  members cls (set_nth j X lvs) k' = members cls lvs k'.
+Proof.
+  induction cls as [|c cs IH]; intros [|l ls] [|j] X k' Hne Hj; simpl in *; try lia; auto.
+  - destruct (Nat.eqb_spec c k'); [contradiction | reflexivity].
+  - rewrite IH; auto. lia.
+Qed.
+
+Lemma members_none : forall cls lvs k', Forall (fun c => c <> k') cls -> members cls lvs k' = [].
+Proof.
+  induction cls as [|c cs IH]; intros [|l ls] k' H; simpl; auto.
+  inversion H as [|? ? Hc Hcs]; subst. destruct (Nat.eqb_spec c k'); [contradiction|]. simpl. now apply IH.
+Qed.
+
+(* sums over cluster indices whose summand vanishes outside a few indices *)
+Lemma rsuml_seq_zero (d : nat -> R) K : (forall k', (k' < K)%nat -> d k' = 0) -> rsuml (map d (seq 0 K)) = 0.
+Proof.
+  induction K as [|K IH]; intros H; [reflexivity|].
+  rewrite seq_S, map_app, rsuml_app, IH by (intros; apply H; lia). simpl map. rewrite rsuml_cons, rsuml_nil, H by lia. lra.
+Qed.
+Lemma rsuml_seq_single (d : nat -> R) K a : (a < K)%nat -> (forall k', (k' < K)%nat -> k' <> a -> d k' = 0) ->
+  rsuml (map d (seq 0 K)) = d a.
+Proof.
+  induction K as [|K IH]; intros Ha H; [lia|].
+  rewrite seq_S, map_app, rsuml_app. simpl map. rewrite rsuml_cons, rsuml_nil.
+  destruct (Nat.eq_dec a K) as [->|Hne].
+  - rewrite rsuml_seq_zero by (intros; apply H; lia). simpl. lra.
+  - rewrite IH by (try lia; intros; apply H; lia). simpl. rewrite (H K) by lia. lra.
+Qed.
+Lemma rsuml_seq_peel (d : nat -> R) K a : (a < K)%nat ->
+  rsuml (map d (seq 0 K)) = d a + rsuml (map (fun k' => if (k' =? a)%nat then 0 else d k') (seq 0 K)).
+Proof.
+  intros Ha.
+  assert (E : rsuml (map (fun k' => if (k' =? a)%nat then d a else 0) (seq 0 K)) = d a).
+  { rewrite (rsuml_seq_single _ K a Ha).
+    - now rewrite Nat.eqb_refl.
+    - intros k' _ Hne. destruct (Nat.eqb_spec k' a); [contradiction | reflexivity]. }
+  rewrite <- E at 1. rewrite <- rsuml_map_plus. apply rsuml_map_ext.
+  intros k' _. destruct (Nat.eqb_spec k' a); [subst|]; lra.
+Qed.
+
+Section GainDecomposition.
+Variable st : @kstate R.
+Variable c : @cand R.
+Let kap := ks_kernel st.
+Let cls := ks_cl st.
+Let lvs := ks_leaves st.
+Let j := c_leaf c.
+Let a := c_left c.
+Let b := c_right c.
+Let k := nth j cls 0%nat.
+Let L := left_part Rops st j (c_feat c) (c_thr c).
+Let Rr := right_part Rops st j (c_feat c) (c_thr c).
+Hypothesis Hlen : length cls = length lvs.
+Hypothesis Hj : (j < length lvs)%nat.
+
+Definition after_list (k' : nat) : list nat :=
+  (if (a =? k')%nat then L else []) ++ others cls lvs j k' ++ (if (b =? k')%nat then Rr else []).
+Definition before_list (k' : nat) : list nat :=
+  (if (k =? k')%nat then L ++ Rr else []) ++ others cls lvs j k'.
+
+Lemma members_after k' :
+  Permutation (members (ks_cl (apply_split Rops st c)) (ks_leaves (apply_split Rops st c)) k') (after_list k').
+Proof.
+  unfold apply_split; simpl. fold j a b L Rr cls lvs.
+  rewrite members_app_single by (rewrite !set_nth_length; exact Hlen).
+  unfold after_list. rewrite app_assoc. apply Permutation_app_tail.
+  pose proof (members_set_perm (set_nth j a cls) lvs j L k' Hj ltac:(rewrite set_nth_length; exact Hlen)) as H.
+  rewrite nth_set_nth in H by lia. unfold others in *. rewrite members_setcl_empty in H. exact H.
+Qed.
+
+Lemma members_before k' : Permutation (members cls lvs k') (before_list k').
+Proof.
+  pose proof (members_set_perm cls lvs j (nth j lvs []) k' Hj Hlen) as H.
+  rewrite set_nth_nth in H. fold k in H. unfold before_list.
+  eapply Permutation_trans; [exact H|]. apply Permutation_app_tail.
+  destruct (k =? k')%nat; [|constructor].
+  apply Permutation_sym. unfold L, Rr, left_part, right_part. fold lvs. apply filter_partition_perm.
+Qed.
+
+Lemma gain_decomp :
+  gain Rops st c = rsuml (map (fun k' => rterm kap (after_list k') - rterm kap (before_list k')) (seq 0 (ks_kmax st))).
+Proof.
+  unfold gain, objective, obj_upto; rops.
+  change (ks_kernel (apply_split Rops st c)) with kap. change (ks_kmax (apply_split Rops st c)) with (ks_kmax st).
+  fold kap cls lvs. change (lsum Rops) with rsuml. rewrite rsuml_map_minus.
+  apply rsuml_map_ext. intros k' _.
+  rewrite (rterm_perm kap _ _ (members_after k')), (rterm_perm kap _ _ (members_before k')). reflexivity.
+Qed.
+
+Lemma unaffected k' : k' <> a -> k' <> b -> k' <> k -> rterm kap (after_list k') - rterm kap (before_list k') = 0.
+Proof.
+  intros Ha Hb Hk. unfold after_list, before_list.
+  destruct (Nat.eqb_spec a k'); [congruence|]. destruct (Nat.eqb_spec b k'); [congruence|].
+  destruct (Nat.eqb_spec k k'); [congruence|]. simpl. rewrite app_nil_r. lra.
+Qed.
+
+(* ---- the six families, under the structural facts every reachable state satisfies ---- *)
+Hypothesis Hsym : symmetric kap.
+Hypothesis Hcl : Forall (fun x => (x < ks_nc st)%nat) cls.       (* cluster ids in use are < n_clusters *)
+Let nc := ks_nc st.
+Let K := ks_kmax st.
+Let O := others cls lvs j k.
+
+Lemma k_lt_nc : (k < nc)%nat.
+Proof.
+  unfold k. rewrite Forall_forall in Hcl. apply Hcl. apply nth_In. fold cls in Hlen. rewrite Hlen. exact Hj.
+Qed.
+Lemma others_fresh k' : (nc <= k')%nat -> others cls lvs j k' = [].
+Proof.
+  intros H. apply members_none. rewrite Forall_forall in *. intros x Hx. specialize (Hcl x Hx). unfold nc in *. lia.
+Qed.
+
+Ltac eval_lists :=
+  unfold after_list, before_list;
+  repeat match goal with
+  | |- context [(?x =? ?y)%nat] => destruct (Nat.eqb_spec x y); try lia; try congruence
+  end; simpl app; rewrite ?app_nil_r.
+
+Ltac two_points p q :=
+  rewrite gain_decomp; fold K;
+  rewrite (rsuml_seq_peel _ K p) by lia; rewrite (rsuml_seq_peel _ K q) by lia;
+  rewrite rsuml_seq_zero by
+    (intros k' Hk'; destruct (Nat.eqb_spec k' q); [reflexivity|]; destruct (Nat.eqb_spec k' p); [reflexivity|];
+     apply unaffected; congruence).
+Ltac three_points p q r :=
+  rewrite gain_decomp; fold K;
+  rewrite (rsuml_seq_peel _ K p) by lia; rewrite (rsuml_seq_peel _ K q) by lia; rewrite (rsuml_seq_peel _ K r) by lia;
+  rewrite rsuml_seq_zero by
+    (intros k' Hk'; destruct (Nat.eqb_spec k' r); [reflexivity|]; destruct (Nat.eqb_spec k' q); [reflexivity|];
+     destruct (Nat.eqb_spec k' p); [reflexivity|]; apply unaffected; congruence).
+
+Lemma left_star_gain_full P f : a = nc -> b = k -> (nc < K)%nat -> L <> [] -> Rr <> [] ->
+  left_star (stocks_of kap L Rr O P f) = gain Rops st c.
+Proof.
+  intros Ha Hb HK HL HR. pose proof k_lt_nc as Hk.
+  rewrite (left_star_is_gain kap Hsym L Rr O P f HL (app_ne_l _ _ HR)).
+  two_points nc k.
+  destruct (Nat.eqb_spec k nc); [lia|].
+  eval_lists. rewrite (others_fresh nc) by lia. fold O. simpl app. rewrite rterm_nil.
+  rewrite (rterm_perm kap (O ++ Rr) (Rr ++ O)) by apply Permutation_app_comm.
+  rewrite <- app_assoc, ?app_nil_r. lra.
+Qed.
+
+Lemma right_star_gain_full P f : a = k -> b = nc -> (nc < K)%nat -> L <> [] -> Rr <> [] ->
+  right_star (stocks_of kap L Rr O P f) = gain Rops st c.
+Proof.
+  intros Ha Hb HK HL HR. pose proof k_lt_nc as Hk.
+  rewrite (right_star_is_gain kap Hsym L Rr O P f HR (app_ne_l _ _ HL)).
+  two_points nc k.
+  destruct (Nat.eqb_spec k nc); [lia|].
+  eval_lists. rewrite (others_fresh nc) by lia. fold O. simpl app. rewrite rterm_nil.
+  rewrite <- app_assoc, ?app_nil_r. lra.
+Qed.
+
+(* P = the members of the other cluster k1 (leaf j is not one of its leaves) *)
+Lemma others_other k1 : k1 <> k -> others cls lvs j k1 = members cls lvs k1.
+Proof.
+  intros H. unfold others. apply members_other_leaf; [fold k; congruence | fold cls in Hlen; rewrite Hlen; exact Hj].
+Qed.
+
+Lemma left_switch_gain_full k1 f : a = k1 -> b = k -> (k1 < nc)%nat -> k1 <> k -> (nc <= K)%nat ->
+  L <> [] -> Rr <> [] -> members cls lvs k1 <> [] ->
+  left_switch (stocks_of kap L Rr O (members cls lvs k1) f) = gain Rops st c.
+Proof.
+  intros Ha Hb H1 Hne HK HL HR HP. pose proof k_lt_nc as Hk.
+  rewrite (left_switch_is_gain kap Hsym L Rr O _ f HL (app_ne_l _ _ HR) HP).
+  two_points k1 k.
+  destruct (Nat.eqb_spec k k1); [congruence|].
+  eval_lists. rewrite (others_other k1) by congruence. fold O.
+  rewrite (rterm_perm kap (O ++ Rr) (Rr ++ O)) by apply Permutation_app_comm.
+  rewrite (rterm_perm kap (L ++ members cls lvs k1) (members cls lvs k1 ++ L)) by apply Permutation_app_comm.
+  rewrite <- app_assoc, ?app_nil_r. lra.
+Qed.
+
+Lemma right_switch_gain_full k1 f : a = k -> b = k1 -> (k1 < nc)%nat -> k1 <> k -> (nc <= K)%nat ->
+  L <> [] -> Rr <> [] -> members cls lvs k1 <> [] ->
+  right_switch (stocks_of kap L Rr O (members cls lvs k1) f) = gain Rops st c.
+Proof.
+  intros Ha Hb H1 Hne HK HL HR HP. pose proof k_lt_nc as Hk.
+  rewrite (right_switch_is_gain kap Hsym L Rr O _ f HR (app_ne_l _ _ HL) HP).
+  two_points k1 k.
+  destruct (Nat.eqb_spec k k1); [congruence|].
+  eval_lists. rewrite (others_other k1) by congruence. fold O.
+  rewrite <- app_assoc, ?app_nil_r. lra.
+Qed.
+
+Lemma realloc_gain_full k1 k2 f : a = k1 -> b = k2 -> (k1 < nc)%nat -> (k2 < nc)%nat -> k1 <> k -> k2 <> k -> k1 <> k2 ->
+  (nc <= K)%nat -> L <> [] -> Rr <> [] -> O <> [] -> members cls lvs k1 <> [] -> members cls lvs k2 <> [] ->
+  left_switch (stocks_of kap L Rr O (members cls lvs k1) f) + right_switch (stocks_of kap L Rr O (members cls lvs k2) f)
+  + corrective_term (stocks_of kap L Rr O (members cls lvs k1) f) = gain Rops st c.
+Proof.
+  intros Ha Hb H1 H2 Hn1 Hn2 H12 HK HL HR HO HP HQ. pose proof k_lt_nc as Hk.
+  rewrite (realloc_is_gain kap Hsym L Rr O _ _ f HL HR HO HP HQ).
+  three_points k1 k2 k.
+  destruct (Nat.eqb_spec k2 k1); [congruence|]. destruct (Nat.eqb_spec k k2); [congruence|].
+  destruct (Nat.eqb_spec k k1); [congruence|].
+  eval_lists. rewrite (others_other k1), (others_other k2) by congruence. fold O.
+  rewrite (rterm_perm kap (L ++ members cls lvs k1) (members cls lvs k1 ++ L)) by apply Permutation_app_comm.
+  rewrite <- app_assoc, ?app_nil_r. lra.
+Qed.
+
+Lemma double_star_corrected_gain_full om : a = nc -> b = S nc -> (S nc < K)%nat -> L <> [] -> Rr <> [] -> O <> [] ->
+  double_star_f Rops true (sig kap L L) (sig kap Rr Rr) (sig kap (L ++ Rr) (L ++ Rr))
+                (sig kap (L ++ Rr ++ O) (L ++ Rr ++ O)) (sig kap (L ++ Rr ++ O) L) (sig kap (L ++ Rr ++ O) Rr) om
+                (length (L ++ Rr ++ O)) (length (L ++ Rr)) (length L) = gain Rops st c.
+Proof.
+  intros Ha Hb HK HL HR HO. pose proof k_lt_nc as Hk.
+  rewrite (double_star_corrected_is_gain kap Hsym L Rr O om HL HR HO).
+  three_points nc (S nc) k.
+  destruct (Nat.eqb_spec (S nc) nc); [lia|]. destruct (Nat.eqb_spec k (S nc)); [lia|].
+  destruct (Nat.eqb_spec k nc); [lia|].
+  eval_lists. rewrite (others_fresh nc), (others_fresh (S nc)) by lia. fold O. simpl app. rewrite rterm_nil.
+  rewrite <- app_assoc, ?app_nil_r. lra.
+Qed.
+End GainDecomposition.
+
+(* ------------------------------------------------------------------ readable wrappers for Props/C08.v *)
+(* what a candidate does to a state: Lp / Rp = left / right part of its leaf, Op = the other samples of the
+   leaf's cluster, leaf_cluster = k *)
+Definition Lp (st : @kstate R) (c : @cand R) : list nat := left_part Rops st (c_leaf c) (c_feat c) (c_thr c).
+Definition Rp (st : @kstate R) (c : @cand R) : list nat := right_part Rops st (c_leaf c) (c_feat c) (c_thr c).
+Definition leaf_cluster (st : @kstate R) (c : @cand R) : nat := nth (c_leaf c) (ks_cl st) 0%nat.
+Definition Op (st : @kstate R) (c : @cand R) : list nat := others (ks_cl st) (ks_leaves st) (c_leaf c) (leaf_cluster st c).
+Definition Cl (st : @kstate R) (k' : nat) : list nat := members (ks_cl st) (ks_leaves st) k'.
+Definition cand_stocks (st : @kstate R) (c : @cand R) (P : list nat) (f : nat) : stocks :=
+  stocks_of (ks_kernel st) (Lp st c) (Rp st c) (Op st c) P f.
+(* structural facts of every state find_best_split is called on: symmetric kernel, Y and Z describe the same
+   leaves, the leaf exists, cluster ids in use are below n_clusters *)
+Definition wf_state (st : @kstate R) (c : @cand R) : Prop :=
+  symmetric (ks_kernel st) /\ length (ks_cl st) = length (ks_leaves st) /\
+  (c_leaf c < length (ks_leaves st))%nat /\ Forall (fun x => (x < ks_nc st)%nat) (ks_cl st).
+
+Lemma left_star_gain st c P f : wf_state st c ->
+  c_left c = ks_nc st -> c_right c = leaf_cluster st c -> (ks_nc st < ks_kmax st)%nat -> Lp st c <> [] -> Rp st c <> [] ->
+  left_star (cand_stocks st c P f) = gain Rops st c.
+Proof. intros (H1 & H2 & H3 & H4). now apply left_star_gain_full. Qed.
+Lemma right_star_gain st c P f : wf_state st c ->
+  c_left c = leaf_cluster st c -> c_right c = ks_nc st -> (ks_nc st < ks_kmax st)%nat -> Lp st c <> [] -> Rp st c <> [] ->
+  right_star (cand_stocks st c P f) = gain Rops st c.
+Proof. intros (H1 & H2 & H3 & H4). now apply right_star_gain_full. Qed.
+Lemma left_switch_gain st c f : wf_state st c ->
+  (c_left c < ks_nc st)%nat -> c_left c <> leaf_cluster st c -> c_right c = leaf_cluster st c -> (ks_nc st <= ks_kmax st)%nat ->
+  Lp st c <> [] -> Rp st c <> [] -> Cl st (c_left c) <> [] ->
+  left_switch (cand_stocks st c (Cl st (c_left c)) f) = gain Rops st c.
+Proof. intros (H1 & H2 & H3 & H4) **. now apply left_switch_gain_full. Qed.
+Lemma right_switch_gain st c f : wf_state st c ->
+  (c_right c < ks_nc st)%nat -> c_right c <> leaf_cluster st c -> c_left c = leaf_cluster st c -> (ks_nc st <= ks_kmax st)%nat ->
+  Lp st c <> [] -> Rp st c <> [] -> Cl st (c_right c) <> [] ->
+  right_switch (cand_stocks st c (Cl st (c_right c)) f) = gain Rops st c.
+Proof. intros (H1 & H2 & H3 & H4) **. now apply right_switch_gain_full. Qed.
+Lemma realloc_gain st c f : wf_state st c ->
+  (c_left c < ks_nc st)%nat -> (c_right c < ks_nc st)%nat -> c_left c <> leaf_cluster st c -> c_right c <> leaf_cluster st c ->
+  c_left c <> c_right c -> (ks_nc st <= ks_kmax st)%nat ->
+  Lp st c <> [] -> Rp st c <> [] -> Op st c <> [] -> Cl st (c_left c) <> [] -> Cl st (c_right c) <> [] ->
+  left_switch (cand_stocks st c (Cl st (c_left c)) f) + right_switch (cand_stocks st c (Cl st (c_right c)) f)
+  + corrective_term (cand_stocks st c (Cl st (c_left c)) f) = gain Rops st c.
+Proof. intros (H1 & H2 & H3 & H4) **. now apply realloc_gain_full. Qed.
+Lemma double_star_corrected_gain st c om : wf_state st c ->
+  c_left c = ks_nc st -> c_right c = S (ks_nc st) -> (S (ks_nc st) < ks_kmax st)%nat ->
+  Lp st c <> [] -> Rp st c <> [] -> Op st c <> [] ->
+  let Ck := Lp st c ++ Rp st c ++ Op st c in let Nl := Lp st c ++ Rp st c in
+  double_star_f Rops true (sig (ks_kernel st) (Lp st c) (Lp st c)) (sig (ks_kernel st) (Rp st c) (Rp st c))
+                (sig (ks_kernel st) Nl Nl) (sig (ks_kernel st) Ck Ck) (sig (ks_kernel st) Ck (Lp st c))
+                (sig (ks_kernel st) Ck (Rp st c)) om (length Ck) (length Nl) (length (Lp st c)) = gain Rops st c.
+Proof. intros (H1 & H2 & H3 & H4) **. now apply double_star_corrected_gain_full. Qed.
+
+(* ------------------------------------------------------------------ every admissible candidate falls in one of the six families *)
+Definition state_ok (st : @kstate R) : Prop :=
+  symmetric (ks_kernel st) /\ length (ks_cl st) = length (ks_leaves st) /\
+  Forall (fun x => (x < ks_nc st)%nat) (ks_cl st) /\ Forall (fun j => (j < length (ks_leaves st))%nat) (ks_explore st) /\
+  (ks_nc st <= ks_kmax st)%nat /\ (forall k', (k' < ks_nc st)%nat -> Cl st k' <> []).
+
+Lemma csize_split (st : @kstate R) j : length (ks_cl st) = length (ks_leaves st) -> (j < length (ks_leaves st))%nat ->
+  csize st (nth j (ks_cl st) 0%nat) =
+  (length (nth j (ks_leaves st) []) + length (others (ks_cl st) (ks_leaves st) j (nth j (ks_cl st) 0%nat)))%nat.
+Proof.
+  intros Hlen Hj. unfold csize.
+  pose proof (members_set_perm (ks_cl st) (ks_leaves st) j (nth j (ks_leaves st) []) (nth j (ks_cl st) 0%nat) Hj Hlen) as H.
+  rewrite set_nth_nth, Nat.eqb_refl in H. rewrite (Permutation_length H), app_length. reflexivity.
+Qed.
+
+Definition family_formula (st : @kstate R) (c : @cand R) : Prop :=
+  let k := leaf_cluster st c in let nc := ks_nc st in
+  (c_left c = nc /\ c_right c = k /\ forall P f, gain Rops st c = left_star (cand_stocks st c P f)) \/
+  (c_left c = k /\ c_right c = nc /\ forall P f, gain Rops st c = right_star (cand_stocks st c P f)) \/
+  (c_left c = nc /\ c_right c = S nc /\ forall om,
+     gain Rops st c =
+     double_star_f Rops true (sig (ks_kernel st) (Lp st c) (Lp st c)) (sig (ks_kernel st) (Rp st c) (Rp st c))
+       (sig (ks_kernel st) (Lp st c ++ Rp st c) (Lp st c ++ Rp st c))
+       (sig (ks_kernel st) (Lp st c ++ Rp st c ++ Op st c) (Lp st c ++ Rp st c ++ Op st c))
+       (sig (ks_kernel st) (Lp st c ++ Rp st c ++ Op st c) (Lp st c))
+       (sig (ks_kernel st) (Lp st c ++ Rp st c ++ Op st c) (Rp st c)) om
+       (length (Lp st c ++ Rp st c ++ Op st c)) (length (Lp st c ++ Rp st c)) (length (Lp st c))) \/
+  ((c_left c < nc)%nat /\ c_left c <> k /\ c_right c = k /\
+     forall f, gain Rops st c = left_switch (cand_stocks st c (Cl st (c_left c)) f)) \/
+  ((c_right c < nc)%nat /\ c_right c <> k /\ c_left c = k /\
+     forall f, gain Rops st c = right_switch (cand_stocks st c (Cl st (c_right c)) f)) \/
+  ((c_left c < nc)%nat /\ (c_right c < nc)%nat /\ c_left c <> k /\ c_right c <> k /\ c_left c <> c_right c /\
+     forall f, gain Rops st c =
+       left_switch (cand_stocks st c (Cl st (c_left c)) f) + right_switch (cand_stocks st c (Cl st (c_right c)) f)
+       + corrective_term (cand_stocks st c (Cl st (c_left c)) f)).
+
+Lemma candidates_covered : forall st c, state_ok st -> In c (candidates Rops st) -> family_formula st c.
+Proof.
+  intros st c (Hsym & Hlen & Hcl & Hex & Hnk & Hne) Hin.
+  unfold candidates in Hin.
+  apply in_flat_map in Hin; destruct Hin as (j & Hj & Hin).
+  apply in_flat_map in Hin; destruct Hin as (f & Hf & Hin).
+  apply in_flat_map in Hin; destruct Hin as (i & Hi & Hin).
+  destruct (split_ok Rops st j f (ks_X st i f)) eqn:Hok; [|contradiction].
+  apply in_map_iff in Hin; destruct Hin as ([a b] & Hc & Hab). cbn [fst snd] in Hc.
+  rewrite Forall_forall in Hex. specialize (Hex j Hj).
+  set (t := ks_X st i f) in *. subst c.
+  set (c := {| c_leaf := j; c_feat := f; c_thr := t; c_left := a; c_right := b |}).
+  assert (Hwf : wf_state st c) by (repeat split; assumption).
+  unfold split_ok in Hok. apply andb_prop in Hok; destruct Hok as [HokL HokR].
+  apply Nat.leb_le in HokL, HokR.
+  assert (HL : Lp st c <> []).
+  { unfold Lp, c; cbn [c_leaf c_feat c_thr]. intros E. rewrite E in HokL. cbn [length] in HokL. lia. }
+  assert (HR : Rp st c <> []).
+  { unfold Rp, c; cbn [c_leaf c_feat c_thr]. intros E. rewrite E in HokR. cbn [length] in HokR. lia. }
+  assert (HO : negb (length (nth j (ks_leaves st) []) =? csize st (nth j (ks_cl st) 0%nat))%nat = true -> Op st c <> []).
+  { intros Hflag. unfold Op, leaf_cluster, c; cbn [c_leaf].
+    rewrite (csize_split st j Hlen Hex) in Hflag. intros E. rewrite E in Hflag. cbn [length] in Hflag.
+    rewrite Nat.add_0_r, Nat.eqb_refl in Hflag. discriminate. }
+  unfold family_formula.
+  change (leaf_cluster st c) with (nth j (ks_cl st) 0%nat) in *.
+  change (c_left c) with a in *. change (c_right c) with b in *.
+  unfold target_pairs in Hab.
+  apply in_app_or in Hab; destruct Hab as [Hab|Hab].
+  { (* star *)
+    destruct (Nat.ltb_spec (ks_nc st) (ks_kmax st)) as [Hlt|]; [|contradiction].
+    destruct Hab as [E|[E|[]]]; inversion E; subst a b.
+    - left. repeat split; auto. intros P f0. symmetry. apply left_star_gain; auto.
+    - right; left. repeat split; auto. intros P f0. symmetry. apply right_star_gain; auto. }
+  apply in_app_or in Hab; destruct Hab as [Hab|Hab].
+  { (* double star *)
+    destruct ((S (ks_nc st) <? ks_kmax st)%nat && _)%bool eqn:Hg in Hab; [|contradiction].
+    apply andb_prop in Hg; destruct Hg as [Hg1 Hg2]. apply Nat.ltb_lt in Hg1.
+    destruct Hab as [E|[]]; inversion E; subst a b.
+    right; right; left. repeat split; auto. intros om. symmetry.
+    apply (double_star_corrected_gain st c om Hwf); auto. }
+  apply in_app_or in Hab; destruct Hab as [Hab|Hab].
+  { (* switch *)
+    destruct (2 <=? ks_nc st)%nat; [|contradiction].
+    apply in_flat_map in Hab; destruct Hab as (k' & Hk' & Hab). apply in_seq in Hk'.
+    destruct (Nat.eqb_spec k' (nth j (ks_cl st) 0%nat)) as [|Hne']; [contradiction|].
+    destruct Hab as [E|[E|[]]]; inversion E; subst a b.
+    - right; right; right; left. repeat split; auto; try lia. intros f0. symmetry.
+      apply left_switch_gain; unfold leaf_cluster; subst c; cbn [c_left c_right c_leaf]; auto; try lia. apply Hne; lia.
+    - right; right; right; right; left. repeat split; auto; try lia. intros f0. symmetry.
+      apply right_switch_gain; unfold leaf_cluster; subst c; cbn [c_left c_right c_leaf]; auto; try lia. apply Hne; lia. }
+  { (* reallocation *)
+    destruct ((3 <=? ks_nc st)%nat && _)%bool eqn:Hg in Hab; [|contradiction].
+    apply andb_prop in Hg; destruct Hg as [_ Hg2].
+    apply in_flat_map in Hab; destruct Hab as (a' & Ha' & Hab). apply in_seq in Ha'.
+    apply in_flat_map in Hab; destruct Hab as (b' & Hb' & Hab). apply in_seq in Hb'.
+    destruct (Nat.eqb_spec a' (nth j (ks_cl st) 0%nat)); [contradiction|].
+    destruct (Nat.eqb_spec b' (nth j (ks_cl st) 0%nat)); [contradiction|].
+    destruct (Nat.eqb_spec a' b'); [contradiction|]. cbn [orb] in Hab.
+    destruct Hab as [E|[]]; inversion E; subst a b.
+    right; right; right; right; right. repeat split; auto; try lia. intros f0. symmetry.
+    apply realloc_gain; unfold leaf_cluster; subst c; cbn [c_left c_right c_leaf]; auto; try lia; apply Hne; lia. }
+Qed.
+
+(* ------------------------------------------------------------------ the incremental stocks of the scan are the direct stocks *)
+Definition dir_stocks (omega : nat -> nat -> R) (nc : nat) (S : list nat) : list R :=
+  map (fun a => rsuml (map (fun i => omega a i) S)) (seq 0 nc).
+
+(* the same loop, but every visit receives the stocks computed directly from the index sets *)
+Fixpoint scan_direct {B : Type} (kap omega : nat -> nat -> R) (nc : nat)
+         (visit : B -> list nat -> nat -> list nat -> R -> R -> list R -> list R -> B)
+         (pre rest : list nat) (acc : B) : B :=
+  match rest with
+  | x :: ((_ :: _) as rest') =>
+      let Sl := pre ++ [x] in
+      let acc := visit acc pre x rest' (sig kap Sl Sl) (sig kap rest' rest') (dir_stocks omega nc Sl) (dir_stocks omega nc rest') in
+      scan_direct kap omega nc visit Sl rest' acc
+  | _ => acc
+  end.
+
+Lemma sig_single_l kap x b : sig kap [x] b = rsuml (map (fun z => kap x z) b).
+Proof. rewrite sig_unfold. simpl map. rewrite rsuml_cons, rsuml_nil. lra. Qed.
+
+Lemma vadd_maps {A} (f g : A -> R) l : vadd Rops (map f l) (map g l) = map (fun a => f a + g a) l.
+Proof. unfold vadd. induction l as [|x l IH]; simpl; [reflexivity|]. f_equal. exact IH. Qed.
+Lemma vsub_maps {A} (f g : A -> R) l : vsub Rops (map f l) (map g l) = map (fun a => f a - g a) l.
+Proof. unfold vsub. induction l as [|x l IH]; simpl; [reflexivity|]. f_equal. exact IH. Qed.
+
+Lemma incremental_stocks_correct {B : Type} kap omega nc
+      (visit : B -> list nat -> nat -> list nat -> R -> R -> list R -> list R -> B) :
+  symmetric kap -> forall rest pre acc,
+  scan_gen Rops kap omega nc visit pre rest (sig kap pre pre) (sig kap rest rest)
+           (dir_stocks omega nc pre) (dir_stocks omega nc rest) acc
+  = scan_direct kap omega nc visit pre rest acc.
+Proof.
+  intros Hsym. induction rest as [|x rest' IH]; intros pre acc; [reflexivity|].
+  destruct rest' as [|y r]; [reflexivity|].
+  cbn [scan_gen scan_direct]. unfold n2; rops. change (lsum Rops) with rsuml.
+  assert (E1 : sig kap pre pre + ((1 + 1) * rsuml (map (fun z => kap x z) pre) + kap x x) = sig kap (pre ++ [x]) (pre ++ [x])).
+  { rewrite sig_app_l, !sig_app_r, (sig_sym kap pre [x] Hsym), !sig_single_l.
+    change (rsuml (map (fun z => kap x z) [x])) with (kap x x + 0). lra. }
+  assert (E2 : sig kap (x :: y :: r) (x :: y :: r) - ((1 + 1) * rsuml (map (fun z => kap x z) (y :: r)) + kap x x) = sig kap (y :: r) (y :: r)).
+  { change (x :: y :: r) with ([x] ++ (y :: r)).
+    rewrite sig_app_l, !sig_app_r, (sig_sym kap (y :: r) [x] Hsym), !sig_single_l.
+    change (rsuml (map (fun z => kap x z) [x])) with (kap x x + 0). lra. }
+  assert (E3 : vadd Rops (dir_stocks omega nc pre) (map (fun a => omega a x) (seq 0 nc)) = dir_stocks omega nc (pre ++ [x])).
+  { unfold dir_stocks. rewrite vadd_maps. apply map_ext. intros a. rewrite map_app, rsuml_app. simpl map. rewrite rsuml_cons, rsuml_nil. lra. }
+  assert (E4 : vsub Rops (dir_stocks omega nc (x :: y :: r)) (map (fun a => omega a x) (seq 0 nc)) = dir_stocks omega nc (y :: r)).
+  { unfold dir_stocks. rewrite vsub_maps. apply map_ext. intros a. simpl map. rewrite !rsuml_cons. lra. }
+  rewrite E1, E2, E3, E4. apply IH.
+Qed.
+
+(* the initial values of the loop in find_best: leaf_square = sigma(N, N) for the sorted leaf nu as well *)
+Lemma insert_by_perm key x l : Permutation (insert_by Rops key x l) (x :: l).
+Proof.
+  induction l as [|y l IH]; simpl; [apply Permutation_refl|].
+  rops. destruct (Rleb (key x) (key y)); [apply Permutation_refl|].
+  eapply Permutation_trans; [apply perm_skip, IH | apply perm_swap].
+Qed.
+Lemma sort_by_perm key l : Permutation (sort_by Rops key l) l.
+Proof.
+  unfold sort_by. induction l as [|x l IH]; simpl; [constructor|].
+  eapply Permutation_trans; [apply insert_by_perm | now constructor].
+Qed.
+Lemma leaf_square_is_stock (st : @kstate R) j key : symmetric (ks_kernel st) ->
+  let leaf := nth j (ks_leaves st) [] in
+  rsuml (map (fun i => Lambda_of Rops st j i) leaf) = sig (ks_kernel st) (sort_by Rops key leaf) (sort_by Rops key leaf).
+Proof.
+  intros Hsym leaf.
+  rewrite (sig_perm_l _ _ _ _ (sort_by_perm key leaf)), (sig_perm_r _ _ _ _ (sort_by_perm key leaf)).
+  unfold Lambda_of. fold leaf. change (lsum Rops) with rsuml. rewrite sig_unfold.
+  apply rsuml_map_ext. intros i _. apply rsuml_map_ext. intros i' _. apply Hsym.
+Qed.
+
+(* ------------------------------------------------------------------ a concrete state meeting every hypothesis *)
+Definition ex_state : @kstate R :=
+  {| ks_kernel := kid; ks_X := fun i _ => INR i; ks_leaves := [[0; 1]; [2]]%nat; ks_cl := [0; 0]%nat; ks_nc := 1;
+     ks_kmax := 3; ks_minleaf := 1; ks_explore := [0%nat]; ks_feats := [0%nat] |}.
+Definition ex_cand : @cand R := {| c_leaf := 0; c_feat := 0; c_thr := 0; c_left := 1; c_right := 2 |}.
+
+Lemma ex_state_ok :
+  state_ok ex_state /\ wf_state ex_state ex_cand /\
+  Lp ex_state ex_cand = [0%nat] /\ Rp ex_state ex_cand = [1%nat] /\ Op ex_state ex_cand = [2%nat] /\
+  c_left ex_cand = ks_nc ex_state /\ c_right ex_cand = S (ks_nc ex_state) /\ (S (ks_nc ex_state) < ks_kmax ex_state)%nat /\
+  In ex_cand (candidates Rops ex_state).
+Proof.
+  assert (HL : Lp ex_state ex_cand = [0%nat]).
+  { unfold Lp, left_part; simpl; rops; unfold Rleb.
+    destruct (Rle_dec 0 0); [|lra]. destruct (Rle_dec 1 0); [lra|]. reflexivity. }
+  assert (HR : Rp ex_state ex_cand = [1%nat]).
+  { unfold Rp, right_part; simpl; rops; unfold Rleb.
+    destruct (Rle_dec 0 0); [|lra]. destruct (Rle_dec 1 0); [lra|]. reflexivity. }
+  repeat split; try exact HL; try exact HR; try reflexivity; simpl; try lia.
+  - exact kid_sym.
+  - repeat constructor.
+  - repeat constructor.
+  - intros k' Hk'. assert (k' = 0%nat) by lia. subst. discriminate.
+  - exact kid_sym.
+  - repeat constructor.
+  - (* the double-star candidate is enumerated *)
+    unfold candidates; simpl. rewrite !app_nil_r.
+    assert (Hok : split_ok Rops ex_state 0 0 0 = true).
+    { unfold split_ok.
+      change (left_part Rops ex_state 0 0 0) with (Lp ex_state ex_cand).
+      change (right_part Rops ex_state 0 0 0) with (Rp ex_state ex_cand). rewrite HL, HR. reflexivity. }
+    rewrite Hok. apply in_or_app. left. right; right; left. reflexivity.
+Qed.
+
+(* ------------------------------------------------------------------ one split position: the repaired compute_all_splits keeps the maximum *)
+Section Position.
+Variables (sl sr lf : R) (slc src : nat -> R) (cs : nat -> nat) (gamma omega : nat -> nat -> R).
+Variables (n_leaf nc kmax k leaf_id split_size feat : nat) (thr : R).
+
+Definition valued : Type := (R * (nat * nat))%type.
+Let es := entries_of sl sr slc src cs gamma n_leaf k split_size (seq 0 nc).
+Let corr := corrective_f Rops sl sr lf (gamma k k) (slc k) (src k) (cs k) n_leaf split_size.
+
+(* every (value, targets) the repaired text evaluates at this position *)
+Definition vals_dstar : list valued :=
+  if g_double_star nc kmax n_leaf (cs k)
+  then [(double_star_f Rops true sl sr lf (gamma k k) (slc k) (src k) (omega k feat) (cs k) n_leaf split_size, (nc, S nc))] else [].
+Definition vals_star : list valued :=
+  if g_star nc kmax
+  then [(star_f Rops sl (gamma k k) (slc k) (cs k) split_size, (nc, k));
+        (star_f Rops sr (gamma k k) (src k) (cs k) (n_leaf - split_size), (k, nc))] else [].
+Definition vals_switch_of (l : list entry) : list valued :=
+  flat_map (fun e => [(e_gl e, (e_id e, k)); (e_gr e, (k, e_id e))]) l.
+Definition vals_switch : list valued := if g_switch nc then vals_switch_of es else [].
+Definition vals_realloc : list valued :=
+  if (g_switch nc && g_realloc nc n_leaf (cs k))%bool
+  then flat_map (fun e1 => flat_map (fun e2 => if (e_id e1 =? e_id e2)%nat then [] else [(e_gl e1 + e_gr e2 + corr, (e_id e1, e_id e2))]) es) es
+  else [].
+Definition pos_values : list valued := vals_dstar ++ vals_star ++ vals_switch ++ vals_realloc.
+
+Definition mk (v : R) (t : nat * nat) : @split R := set_split v leaf_id feat thr (fst t) (snd t).
+Definition covers (vals : list valued) (b0 b : @split R) : Prop :=
+  sp_gain b0 <= sp_gain b /\ (forall v t, In (v, t) vals -> v <= sp_gain b) /\
+  (b = b0 \/ exists v t, In (v, t) vals /\ b = mk v t).
+
+Lemma covers_nil b : covers [] b b.
+Proof. repeat split; [lra | intros ? ? [] | now left]. Qed.
+Lemma covers_app v1 v2 b0 b1 b2 : covers v1 b0 b1 -> covers v2 b1 b2 -> covers (v1 ++ v2) b0 b2.
+Proof.
+  intros (A1 & A2 & A3) (B1 & B2 & B3). repeat split.
+  - lra.
+  - intros v t Hin. apply in_app_or in Hin. destruct Hin as [Hin|Hin]; [specialize (A2 _ _ Hin); lra | exact (B2 _ _ Hin)].
+  - destruct B3 as [->|(v & t & Hin & ->)].
+    + destruct A3 as [->|(v & t & Hin & ->)]; [now left | right; exists v, t; split; [apply in_or_app; now left | reflexivity]].
+    + right; exists v, t; split; [apply in_or_app; now right | reflexivity].
+Qed.
+
+Lemma step_gt b v t : covers [(v, t)] b (if t_gt Rops v (sp_gain b) then mk v t else b).
+Proof.
+  unfold t_gt; rops; unfold Rltb. destruct (Rlt_dec (sp_gain b) v); repeat split; simpl; try lra.
+  - intros v' t' [E|[]]. inversion E; subst. lra.
+  - right. exists v, t. split; [now left | reflexivity].
+  - intros v' t' [E|[]]. inversion E; subst. lra.
+  - now left.
+Qed.
+
+(* the two-sided updates: "if l ? best or r ? best: if l > r: set l else: set r" with ? = > (star) or >= (switch) *)
+Lemma step_pair (strict : bool) b l r tl tr :
+  covers [(l, tl); (r, tr)] b
+    (if ((if strict then t_gt Rops l (sp_gain b) else t_ge Rops l (sp_gain b)) ||
+         (if strict then t_gt Rops r (sp_gain b) else t_ge Rops r (sp_gain b)))%bool
+     then if t_gt Rops l r then mk l tl else mk r tr else b).
+Proof.
+  unfold t_gt, t_ge; rops; unfold Rltb, Rleb.
+  destruct strict; repeat (match goal with |- context [Rlt_dec ?x ?y] => destruct (Rlt_dec x y) | |- context [Rle_dec ?x ?y] => destruct (Rle_dec x y) end);
+    simpl; repeat split; simpl; try lra;
+    try (intros v' t' [E|[E|[]]]; inversion E; subst; lra);
+    try (now left);
+    try (right; exists l, tl; split; [now left | reflexivity]);
+    try (right; exists r, tr; split; [right; now left | reflexivity]).
+Qed.
+
+Lemma covers_dstar b :
+  covers vals_dstar b
+    (if g_double_star nc kmax n_leaf (cs k)
+     then let g := double_star_f Rops true sl sr lf (gamma k k) (slc k) (src k) (omega k feat) (cs k) n_leaf split_size in
+          if t_gt Rops g (sp_gain b) then set_split g leaf_id feat thr nc (S nc) else b
+     else b).
+Proof.
+  unfold vals_dstar. destruct (g_double_star nc kmax n_leaf (cs k)); [|apply covers_nil].
+  cbv zeta. apply (step_gt b _ (nc, S nc)).
+Qed.
+
+Lemma covers_star b :
+  covers vals_star b
+    (if g_star nc kmax
+     then let left_star := star_f Rops sl (gamma k k) (slc k) (cs k) split_size in
+          let right_star := star_f Rops sr (gamma k k) (src k) (cs k) (n_leaf - split_size) in
+          if (t_gt Rops left_star (sp_gain b) || t_gt Rops right_star (sp_gain b))%bool
+          then if t_gt Rops left_star right_star then set_split left_star leaf_id feat thr nc k
+               else set_split right_star leaf_id feat thr k nc
+          else b
+     else b).
+Proof.
+  unfold vals_star. destruct (g_star nc kmax); [|apply covers_nil].
+  cbv zeta. apply (step_pair true b _ _ (nc, k) (k, nc)).
+Qed.
+
+Definition ls_of (k' : nat) : R := left_switch_f Rops sl (gamma k k) (gamma k' k') (slc k) (slc k') (cs k) (cs k') split_size.
+Definition rs_of (k' : nat) : R := left_switch_f Rops sr (gamma k k) (gamma k' k') (src k) (src k') (cs k) (cs k') (n_leaf - split_size).
+Lemma switch_step_unfold fix8 b tl tr k' :
+  switch_step Rops fix8 sl sr slc src cs gamma n_leaf k leaf_id split_size feat thr (b, tl, tr) k' =
+  if (k =? k')%nat then (b, tl, tr) else
+  (if (t_ge Rops (ls_of k') (sp_gain b) || t_ge Rops (rs_of k') (sp_gain b))%bool
+   then if t_gt Rops (ls_of k') (rs_of k') then mk (ls_of k') (k', k) else mk (rs_of k') (k, k') else b,
+   upd_track Rops tl (ls_of k') (ls_of k') k',
+   upd_track Rops tr (rs_of k') (if fix8 then rs_of k' else ls_of k') k').
+Proof. reflexivity. Qed.
+Lemma entries_of_cons k' ks :
+  entries_of sl sr slc src cs gamma n_leaf k split_size (k' :: ks) =
+  (if (k =? k')%nat then [] else [(k', (ls_of k', rs_of k'))]) ++ entries_of sl sr slc src cs gamma n_leaf k split_size ks.
+Proof. reflexivity. Qed.
+
+Lemma covers_switch_fold ks : forall b tl tr,
+  covers (vals_switch_of (entries_of sl sr slc src cs gamma n_leaf k split_size ks)) b
+    (fst (fst (fold_left (switch_step Rops true sl sr slc src cs gamma n_leaf k leaf_id split_size feat thr) ks (b, tl, tr)))).
+Proof.
+  induction ks as [|k' ks IH]; intros b tl tr.
+  - apply covers_nil.
+  - cbn [fold_left]. rewrite switch_step_unfold, entries_of_cons. destruct (k =? k')%nat eqn:E.
+    + apply IH.
+    + unfold vals_switch_of in *. cbn [app flat_map]. 
+      change ((e_gl (k', (ls_of k', rs_of k')), (e_id (k', (ls_of k', rs_of k')), k))
+              :: (e_gr (k', (ls_of k', rs_of k')), (k, e_id (k', (ls_of k', rs_of k'))))
+              :: flat_map (fun e => [(e_gl e, (e_id e, k)); (e_gr e, (k, e_id e))]) (entries_of sl sr slc src cs gamma n_leaf k split_size ks))
+        with ([(ls_of k', (k', k)); (rs_of k', (k, k'))] ++
+              flat_map (fun e => [(e_gl e, (e_id e, k)); (e_gr e, (k, e_id e))]) (entries_of sl sr slc src cs gamma n_leaf k split_size ks)).
+      eapply covers_app; [|apply IH].
+      apply (step_pair false b _ _ (k', k) (k, k')).
+Qed.
+Lemma entries_of_length ks :
+  (length (entries_of sl sr slc src cs gamma n_leaf k split_size ks) + count_occ Nat.eq_dec ks k = length ks)%nat.
+Proof.
+  induction ks as [|k' ks IH]; [reflexivity|].
+  rewrite entries_of_cons, app_length.
+  destruct (Nat.eqb_spec k k') as [E|Hne].
+  - rewrite (count_occ_cons_eq Nat.eq_dec ks (eq_sym E)). cbn [length]. unfold entry in *. lia.
+  - rewrite (count_occ_cons_neq Nat.eq_dec ks (fun H => Hne (eq_sym H))). cbn [length]. unfold entry in *. lia.
+Qed.
+
+Lemma covers_realloc b :
+  let tl := track_left es in let tr := track_right true es in
+  covers vals_realloc b
+    (if (g_switch nc && g_realloc nc n_leaf (cs k))%bool
+     then match pair_select Rops tl tr with
+          | (Some r, Some a, Some b') => if t_gt Rops (r + corr) (sp_gain b) then set_split (r + corr) leaf_id feat thr a b' else b
+          | _ => b
+          end
+     else b).
+Proof.
+  intros tl tr. unfold vals_realloc.
+  destruct (g_switch nc && g_realloc nc n_leaf (cs k))%bool eqn:G; [|apply covers_nil].
+  assert (Hnd : NoDup (map e_id es)) by apply entries_of_ids.
+  assert (Hlen : (2 <= length es)%nat).
+  { apply andb_prop in G. destruct G as [_ G]. unfold g_realloc in G. apply andb_prop in G. destruct G as [G _].
+    apply Nat.leb_le in G. pose proof (entries_of_length (seq 0 nc)) as H. rewrite seq_length in H. fold es in H.
+    pose proof (proj1 (NoDup_count_occ Nat.eq_dec (seq 0 nc)) (seq_NoDup nc 0) k). lia. }
+  destruct (top2_pair_optimal es Hnd Hlen) as (r & a & b' & Hsel & Hab & (ea & eb & Iea & Ieb & Ea & Eb & Er) & Hopt).
+  fold tl tr in Hsel. rewrite Hsel.
+  assert (Hin : In (r + corr, (a, b')) (flat_map (fun e1 => flat_map (fun e2 => if (e_id e1 =? e_id e2)%nat then [] else [(e_gl e1 + e_gr e2 + corr, (e_id e1, e_id e2))]) es) es)).
+  { apply in_flat_map. exists ea. split; [exact Iea|]. apply in_flat_map. exists eb. split; [exact Ieb|].
+    destruct (Nat.eqb_spec (e_id ea) (e_id eb)); [congruence|]. left. rewrite Ea, Eb, Er. reflexivity. }
+  assert (Hall : forall v t, In (v, t) (flat_map (fun e1 => flat_map (fun e2 => if (e_id e1 =? e_id e2)%nat then [] else [(e_gl e1 + e_gr e2 + corr, (e_id e1, e_id e2))]) es) es) -> v <= r + corr).
+  { intros v t Hv. apply in_flat_map in Hv. destruct Hv as (e1 & I1 & Hv). apply in_flat_map in Hv. destruct Hv as (e2 & I2 & Hv).
+    destruct (Nat.eqb_spec (e_id e1) (e_id e2)); [contradiction|]. destruct Hv as [E|[]]. inversion E; subst.
+    pose proof (Hopt e1 e2 I1 I2 n). lra. }
+  unfold t_gt; rops; unfold Rltb. destruct (Rlt_dec (sp_gain b) (r + corr)); repeat split; simpl; try lra.
+  - intros v t Hv. specialize (Hall v t Hv). lra.
+  - right. exists (r + corr), (a, b'). split; [exact Hin | reflexivity].
+  - intros v t Hv. specialize (Hall v t Hv). lra.
+  - now left.
+Qed.
+
+(* the repaired compute_all_splits returns the running best updated with the maximum over every target pair
+   evaluated at this position, and the split it returns carries exactly the value it was compared with *)
+Lemma compute_all_splits_fixed_covers best :
+  covers pos_values best
+    (compute_all_splits Rops true true best sl sr lf slc src cs gamma omega n_leaf nc kmax k leaf_id split_size feat thr).
+Proof.
+  unfold compute_all_splits, pos_values.
+  eapply covers_app; [apply covers_dstar|]. set (b1 := if g_double_star nc kmax n_leaf (cs k) then _ else best).
+  eapply covers_app; [apply covers_star|]. set (b2 := if g_star nc kmax then _ else b1).
+  unfold vals_switch, vals_realloc.
+  destruct (g_switch nc) eqn:Gs.
+  - pose proof (covers_switch_fold (seq 0 nc) b2 track0 track0) as Hsw.
+    pose proof (switch_fold_tracks true sl sr slc src cs gamma n_leaf k leaf_id split_size feat thr (seq 0 nc) b2 track0 track0) as [Htl Htr].
+    destruct (fold_left _ (seq 0 nc) (b2, track0, track0)) as [[b3 tl] tr]. simpl fst in *. simpl snd in *.
+    eapply covers_app; [exact Hsw|].
+    pose proof (covers_realloc b3) as Hre. unfold vals_realloc in Hre. rewrite Gs in Hre. cbn [andb] in *.
+    subst tl tr. fold es. fold corr.
+    destruct (g_realloc nc n_leaf (cs k)); exact Hre.
+  - cbn [andb app]. apply covers_nil.
+Qed.
+End Position.
